@@ -52,7 +52,7 @@ def exec_raise(case):
     else:
         must = [it for it in items if plan[it["id"]] == "ok"]  # "bare"/"before": untouched
         may = [it for it in items if plan[it["id"]] in ("ok", "after")]
-        recs = sum(it["ret"] for it in must)
+        recs = sum(int(it["ret"]) for it in must)
         probs = P.check_outcome(ref, res["outcome"], res["objects"], must, may, recs)
     res.pop("objects", None)
     return probs, res
@@ -104,15 +104,18 @@ def task(arg):
         # exactly one item raises an exception that carries NO message
         for assign in itertools.product(range(w), repeat=k):
             for bad in range(k):
+              # "bare": no message at all; "oserr": args that are not all strings (errno, text),
+              # "intarg": a single non-string argument
+              for how in ("bare", "oserr", "intarg"):
                 plan = ["ok"] * k
-                plan[bad] = "bare"
+                plan[bad] = how
                 case = dict(kind="raise", k=k, w=w, salt=salt, assign=list(assign), plan=plan)
                 probs, res = exec_raise(case)
                 n += 1
                 nt += 1
                 if probs and len(out) < 3:
-                    out.append((case, f"k={k} w={w} assign={list(assign)}, item {bad} raises an exception "
-                                      f"without a message: {probs[0]}"))
+                    out.append((case, f"k={k} w={w} assign={list(assign)}, item {bad} raises an "
+                                      f"unusual exception ({how}): {probs[0]}"))
     else:
         codes = (3,) if kind == "death" else (1, -9, -15)
         for assign in itertools.product(range(w), repeat=k):
@@ -192,12 +195,12 @@ def real_start(spec):
 def real_finish(p, spec, rep):
     try:
         try:
-            out, _ = p.communicate(timeout=600)
+            out, _ = p.communicate(timeout=1800)
         except subprocess.TimeoutExpired:
             p.kill()
             rep.violation(dict(kind="real-death", **{k: v for k, v in spec.items() if k != "dir"}),
                           "real spawned parallel_add with a worker calling os._exit(3) did not "
-                          "terminate within 600 s")
+                          "terminate within 1800 s")
             return
         line = [l for l in out.decode().splitlines() if l.startswith("RESULT")]
         if not line:
